@@ -80,6 +80,8 @@ class CondGen:
         o = self.obj_term(names)
         r = self.rng.random()
         if "idx" in self.vocab and r < 0.15:
+            if self.rng.random() < 0.35:
+                return ["idx", ["attr", o, "meta"], "k"]
             return ["idx", ["attr", o, "tags"], 0]
         if "call" in self.vocab and r < 0.3:
             if self.rng.random() < 0.5:
@@ -111,8 +113,9 @@ class CondGen:
                 return ["in", self.num_term(names), ["lit", rng.sample(self.vals, 2)]]
             return ["in", ["v", rng.choice(names)], ["attr", self.obj_term(names), "kids"]]
         if k == "fp":
-            name = rng.choice(["p_odd", "p_ge", "p_link", "p_has"])
-            if name == "p_odd":
+            name = rng.choice(["p_odd", "p_ge", "p_link", "p_has", "p_calls", "p_makes"] +
+                              (["p_inner"] if self.cfg.get("inner_eval") else []))
+            if name in ("p_odd", "p_calls", "p_makes", "p_inner"):
                 return ["fp", name, [self.obj_term(names)]]
             if name == "p_link":
                 return ["fp", name, [self.obj_term(names), self.obj_term(names)]]
